@@ -179,6 +179,25 @@ func cmdCheck(argv []string) int {
 			fmt.Printf("  %s: %d obligations, rejected=%q\n", u.name, len(u.obls), u.rejected)
 		}
 	}
+	// structural obligations: `flag callers_require <ghost>` on a callee - every call site in the loaded packages must lie
+	// in a function whose contract requires that ghost (so the attach primitives are reachable only through checked layers)
+	for _, k := range sortedKeys(e.cs.Funcs) {
+		c := e.cs.Funcs[k]
+		need := c.Flags["callers_require"]
+		if need == "" {
+			continue
+		}
+		mine := false
+		for _, p := range e.props[k] {
+			if p == prop {
+				mine = true
+			}
+		}
+		if !mine {
+			continue
+		}
+		units = append(units, e.callSiteUnit(k, need))
+	}
 	genS := time.Since(tGen).Seconds()
 	work, _ := os.MkdirTemp("", "gocv-run-")
 	defer os.RemoveAll(work)
